@@ -59,6 +59,47 @@ def viol(ctx, what, rep, found_input=True):
         ctx.violation(what, rep, found_input=found_input)
 
 
+# ------------------------------------------------------------------ in-Coq shard (takes extraction out of the trusted base for a sample)
+SHARD: list = []          # (coq expression, expected value as a Coq term) ; expected = what the extracted driver printed
+
+
+def cz(x): return f"({x})%Z"
+def cn(x): return f"{x}%N"
+def cnat(x): return f"{x}%nat"
+def cb(x): return "true" if x else "false"
+def clist(xs, f): return "[" + "; ".join(f(x) for x in xs) + "]"
+def copt(x, f): return "None" if x == "err" else f"(Some {f(x)})"
+
+
+def cq(fr: Fraction) -> str:
+    return f"(({fr.numerator}) # {fr.denominator})%Q"
+
+
+def run_shard(ctx) -> None:
+    """Evaluate the sampled cases inside Coq (vm_compute) and require the values the extracted OCaml driver printed."""
+    import subprocess
+    if not SHARD:
+        return
+    lines = ["From Coq Require Import ZArith NArith QArith List.", "Import ListNotations.",
+             "From ICG Require Import Bits Combs Enum Preds CoalitionGen.",
+             "Definition g (l : list Q) : N -> Q := fun s => nth (N.to_nat s) l 0%Q."]
+    for i, (e, v) in enumerate(SHARD):
+        lines.append(f"Example shard_{i} : {e} = {v}. Proof. vm_compute. reflexivity. Qed.")
+    f = ctx.work / "cases_C18.v"
+    f.write_text("\n".join(lines) + "\n")
+    lock = common._lock()
+    try:
+        p = subprocess.run(["timeout", "600", "coqc", "-Q", "theories", "ICG", str(f)], cwd=common.COQ,
+                           capture_output=True, text=True)
+    finally:
+        lock.close()
+    ctx.coverage["in_coq_shard_cases"] = len(SHARD)
+    ctx.coverage["in_coq_shard_ok"] = p.returncode == 0
+    if p.returncode != 0:
+        viol(ctx, "extracted model (OCaml driver) and in-Coq evaluation (vm_compute) of the same model disagree, or the shard does not compile",
+             {"relation": "driver output = vm_compute of the model", "log": (p.stdout + p.stderr)[-1500:]}, found_input=False)
+
+
 # ------------------------------------------------------------------ set oracle helpers
 def fs(a: int) -> frozenset:
     return frozenset(i for i in range(a.bit_length()) if (a >> i) & 1)
@@ -137,6 +178,7 @@ def run_operators(ctx):
     for _ in range(nrand):
         w = ctx.rng.choice([7, 8, 9, 10, 16, 31, 40, 60])
         pairs.append((ctx.rng.getrandbits(w), ctx.rng.getrandbits(w)))
+    shard_p = (12 if ctx.quick else 60) / len(pairs)
     lines = [f"c18pair {a} {b}" for (a, b) in pairs]
     outs = common.run_driver_parallel(lines)
     for (a, b), o in zip(pairs, outs):
@@ -147,6 +189,11 @@ def run_operators(ctx):
         ctx.count("pair_cases_by_width", max(a.bit_length(), b.bit_length()))
         if a and b and a != b:
             ctx.nontrivial.add(("pair", a, b))
+        if ctx.rng.random() < shard_p:
+            za, zb = cz(a), cz(b)
+            SHARD.append((f"(gen_and {za} {zb}, gen_or {za} {zb}, gen_sub {za} {zb}, gen_contains {za} {zb}, gen_contains {zb} {za}, "
+                          f"gen_eq {za} {zb}, gen_disjoint {za} {zb}, gen_exclude_keep {za} {zb})",
+                          "(" + ", ".join([cz(x) for x in model[:3]] + [cb(x) for x in model[3:]]) + ")"))
         if impl != orc:
             viol(ctx, "Coalition operator on two coalitions differs from finite-set semantics",
                           {"a": a, "b": b, "layout": "[A&B, A|B, A-B, B in A, A in B, A==B, disjoint_coalitions, exclude_coalition(B,[A]) keeps A]",
@@ -234,6 +281,12 @@ def run_enumerations(ctx):
             ctx.nontrivial.add(("enum", n, c))
         impl = impl_enum(n, c)
         model = parse_enum(o)
+        if n <= 8 and ctx.rng.random() < (12 if ctx.quick else 60) / 510:
+            SHARD.append((f"(en_players {cn(c)}, en_len {cn(c)}, en_ids_players {cnat(n)} {cn(c)}, en_ids_size {cnat(n)} {cn(c)}, "
+                          f"en_sub_obj {cn(c)}, en_ids_sub {cnat(n)} {cn(c)}, en_super_obj {cnat(n)} {cn(c)}, en_ids_super {cnat(n)} {cn(c)})",
+                          "(" + ", ".join([clist(model["players"], cnat), cnat(model["len"]), copt(model["ids_players"], lambda l: clist(l, cnat)),
+                                           copt(model["ids_size"], cnat), clist(model["sub_obj"], cn), copt(model["sub_ids"], lambda l: clist(l, cn)),
+                                           clist(model["super_obj"], cn), copt(model["super_ids"], lambda l: clist(l, cn))]) + ")"))
         bad = oracle_enum(n, c, impl)
         if bad:
             viol(ctx, "coalition listing / enumeration differs from finite-set semantics: " + bad,
@@ -516,6 +569,13 @@ def run_predicates(ctx):
         impl = impl_preds(n, v, rtol, atol, tol, real=(idx % 7 == 3))
         ma, md = parse(a), parse(d)
         model = {"sa": ma["sa"], "sa_default": md["sa"], "mono": ma["mono"], "sam": md["sam"], "sm": ma["sm"], "sm_default": md["sm"]}
+        if n <= 4 and ctx.rng.random() < (12 if ctx.quick else 80) / len(cases):
+            gv = "(g " + clist(v, cq) + ")"
+            ob = lambda x: "None" if x == "err" else f"(Some {cb(x)})"   # noqa: E731
+            sm = "None" if ma["sm"] is None else f"(Some ({cn(ma['sm'][0])}, {cn(ma['sm'][1])}, {cnat(ma['sm'][2])}))"
+            SHARD.append((f"(pd_is_superadditive {cnat(n)} {gv} {cq(rtol)} {cq(atol)}, pd_is_monotone_decreasing {cnat(n)} {gv}, "
+                          f"pd_is_sam {cnat(n)} {gv} {cq(rtol)}, pd_check_supermodularity {cnat(n)} {gv} {cq(tol)})",
+                          f"({ob(ma['sa'])}, {ob(ma['mono'])}, {ob(ma['sam'])}, {sm})"))
         ctx.count("predicate_cases_by_source", src.split(" ")[0])
         ctx.count("predicate_cases_by_n", n)
         for k in ("sa", "mono", "sam"):
@@ -536,11 +596,11 @@ def run_predicates(ctx):
                                "sam": "is_sam"}[k] + " does not decide its textbook definition",
                               dict(rep, predicate=k, observed=impl[k], expected=exp[k]), found_input=True)
         for k, t in (("sm", tol), ("sm_default", Fraction(DEFAULT_TOL))):
-            viol = list(itertools.islice(supermod_violations(n, v, t), 1))
-            if (impl[k] is None) != (not viol):
+            first_v = list(itertools.islice(supermod_violations(n, v, t), 1))
+            if (impl[k] is None) != (not first_v):
                 bad = True
                 viol(ctx, "check_supermodularity answers None although increasing differences fail (or reports a violation on a supermodular game)",
-                              dict(rep, tolerance=str(t), observed=impl[k], a_textbook_violation=viol[:1]), found_input=True)
+                              dict(rep, tolerance=str(t), observed=impl[k], a_textbook_violation=first_v[:1]), found_input=True)
             elif impl[k] is not None and impl[k] not in set(supermod_violations(n, v, t)):
                 bad = True
                 viol(ctx, "check_supermodularity reports a triple (T, S, i) that is not a violation of increasing differences",
@@ -555,12 +615,97 @@ def run_predicates(ctx):
     return mism
 
 
+# ------------------------------------------------------------------ C'. predicates, float stream
+def sa_margin(n, v, rtol, atol, m) -> bool:
+    """Superadditive-with-tolerance where every comparison is shifted by m (m<0: stricter, m>0: more lenient)."""
+    for a in range(2 ** n):
+        for b in range(a, 2 ** n):
+            if a & b == 0:
+                u = v[a | b]
+                # with the empty coalition at value 0 the float sum is exact (x + 0.0 == x): no margin
+                mm = 0 if (a == 0 and v[0] == 0) else m
+                if v[a] + v[b] - u > max(Fraction(0), atol + rtol * abs(u)) + mm:
+                    return False
+    return True
+
+
+def supermod_margin(n, v, tol, m) -> bool:
+    return next(supermod_violations(n, v, tol + m), None) is None
+
+
+def run_float_predicates(ctx):
+    """Arbitrary doubles at the documented default tolerances.  Values are converted exactly to rationals for the model and
+    the oracle; float rounding inside the implementation (one addition / one multiplication per comparison) is far below the
+    margin m = 1e-12 * scale, so a case is compared only when the strict and the lenient oracle agree (else: counted ambiguous)."""
+    import campaign
+    rng = ctx.rng
+    mism = []
+    plan = [(3, 40), (4, 20), (5, 6)] if ctx.quick else [(3, 400), (4, 200), (5, 60), (6, 8)]
+    gl = []
+    for n, k in plan:
+        for j in range(k):
+            kind = j % 4
+            if kind == 0:
+                v, src = [rng.uniform(-1, 1) for _ in range(2 ** n)], "uniform-float"
+            elif kind == 1:
+                v, src = [float(x) for x in games.sa_closure_game(rng, n, "float")], "sa-closure-float"
+            elif kind == 2:
+                try:
+                    v, src = campaign.repo_generator_game(rng, n, campaign.SAM_GENS if j % 8 == 2 else campaign.SA_GENS)
+                except Exception as e:  # noqa: BLE001  (generators are C10's business)
+                    ctx.notes.append(f"repository generator failed while building a float game: {e!r}")
+                    continue
+            else:
+                base = games.sam_game(rng, n, "dyadic")
+                v, src = [float(x) * (1 + rng.uniform(-1e-3, 1e-3)) for x in base], "sam-float-noisy"
+            if len(v) == 2 ** n:
+                gl.append((n, [Fraction(float(x)) for x in v], src))
+    drt, dtol = Fraction(DEFAULT_RTOL), Fraction(DEFAULT_TOL)
+    outs = common.run_driver_parallel([f"c18pred {n} {common.qtok(drt)} 0/1 {common.qtok(dtol)} " + " ".join(common.qtok(x) for x in v)
+                                       for (n, v, _) in gl])
+    b = {"1": True, "0": False, "err": "err"}
+    amb = 0
+    for (n, v, src), o in zip(gl, outs):
+        ctx.evaluations += 1
+        ctx.nontrivial.add(("float", n, tuple(v)))
+        ctx.count("float_predicate_cases_by_source", src.split("@")[0])
+        p = [x.split() for x in o.split("|")]
+        model = {"sa": b[p[0][0]], "mono": b[p[1][0]], "sam": b[p[2][0]], "sm_none": p[3][0] == "none"}
+        r = impl_preds(n, v, drt, 0, dtol)
+        impl = {"sa": r["sa_default"], "mono": r["mono"], "sam": r["sam"], "sm_none": r["sm_default"] is None}
+        m = Fraction(1, 10 ** 12) * max(1, max(abs(x) for x in v))
+        lo = {"sa": sa_margin(n, v, drt, 0, -m), "mono": oracle_mono(n, v), "sm_none": supermod_margin(n, v, dtol, -m)}
+        hi = {"sa": sa_margin(n, v, drt, 0, m), "mono": lo["mono"], "sm_none": supermod_margin(n, v, dtol, m)}
+        lo["sam"], hi["sam"] = lo["sa"] and lo["mono"], hi["sa"] and hi["mono"]
+        rep = {"n": n, "values_by_coalition_id": [str(x) for x in v], "rtol": str(drt), "atol": "0", "tolerance": str(dtol), "source": src}
+        for k in ("sa", "mono", "sam", "sm_none"):
+            ctx.count("float_answers_" + k, impl[k])
+            if lo[k] != hi[k]:
+                amb += 1
+                ctx.count("float_ambiguous_by_predicate", k)
+                continue
+            if impl[k] != lo[k]:
+                viol(ctx, f"predicate {k} (float game, default tolerances) does not decide its textbook definition",
+                     dict(rep, predicate=k, observed=impl[k], expected=lo[k]), found_input=True)
+            elif model[k] != impl[k]:
+                mism.append({"relation": "predicates on float games (values converted exactly): implementation = model", **rep,
+                             "field": k, "impl": impl[k], "model": model[k]})
+    ctx.coverage["float_predicate_comparisons_skipped_as_ambiguous"] = amb
+    return mism
+
+
 # ------------------------------------------------------------------ entry
 def run(ctx, proof):
+    SHARD.clear()
     mism = []
     mism += run_operators(ctx)
     mism += run_enumerations(ctx)
     mism += run_predicates(ctx)
+    mism += run_float_predicates(ctx)
+    if proof.get("ok"):
+        run_shard(ctx)
+    else:   # the build broke, so the driver may predate the regenerated definitions: nothing to cross-check
+        ctx.notes.append("in-Coq shard skipped: the proof step failed, the extracted driver may be stale")
     ctx.coverage["correspondence_mismatches"] = len(mism)
     if mism:
         by_rel = {}
